@@ -481,7 +481,9 @@ def main():
     # Run when the verifier reports a violation (to attach a failing input), when it is undecided (the bounded
     # check then stands in for the functions it could not reach) and always in the thorough tier.
     bounded = dict(scenarios_run=0, failed=[], note="bounded: finite hand-written scenario set per property, public API, debug+release; for C09/C10/C11 also the "
-                        "exhaustive grid of all texts of up to 3 (thorough: 4) items of scenarios/C09/alphabet.txt (counted in scenarios_run)")
+                        "exhaustive grid of all texts of up to 3 (thorough: 4) items of scenarios/C09/alphabet.txt; for the thirteen properties with a row-level meaning the regression grid "
+                        "(tools/gridgen.py: 250 generated scenarios per property, compared with the behaviour recorded on the tree on which the contracts were proved); for C16 the generated "
+                        ".dig documents (tools/dig_cases.py); all counted in scenarios_run")
     scen_fail = []
     scen_known = []
     always = bool(spec.get("bounded_always")) or any(k.get("scenario") and k["property"] == prop for k in known.get("known", []))  # properties that lean on the (unverifiable) generated lexer: replay on every run
